@@ -1226,4 +1226,127 @@ example : (match outcome (eval 12 (.call (.fn none ["a"] false true "k" (.stmts 
     | .ok (.int v) => v == 42
     | _ => false) = true := by decide +kernel
 
+/-! ### what `extendFunctionEnv` builds, for a plain (non variadic) function -/
+
+/-- the store after binding parameters to arguments, in order -/
+def C01.bindStore (store : List (String × Obj)) (pas : List (String × Obj)) : List (String × Obj) :=
+  pas.foldl (fun s pa => setStore s pa.1 pa.2) store
+
+/-- `s'` differs from `s` only in frame `e`, which went from `fr0` to a frame with the parameters bound -/
+structure C01.Bound (s s' : St) (e : Nat) (fr0 : Frame) (pas : List (String × Obj)) : Prop where
+  size : s'.frames.size = s.frames.size
+  cur : s'.cur = s.cur
+  cfg : s'.cfg = s.cfg
+  outs : s'.outs = s.outs
+  extNames : s'.extNames = s.extNames
+  others : ∀ i, i ≠ e → s'.frames[i]? = s.frames[i]?
+  frame : ∃ fr', s'.frames[e]? = some fr' ∧ fr'.store = C01.bindStore fr0.store pas ∧ fr'.outer = fr0.outer
+    ∧ fr'.function = fr0.function ∧ fr'.depth = fr0.depth
+
+/-- ordinary parameters and argument values: not all-caps, not an extension's name; plain non-error values -/
+def C01.PlainBinding (s : St) (pa : String × Obj) : Prop :=
+  isConstant pa.1 = false ∧ s.extNames.contains pa.1 = false ∧ (∀ e n, pa.2 ≠ .ref e n) ∧ pa.2.isError = false
+
+theorem C01.bind_one (e : Nat) (p : String) (a : Obj) (s : St) (fr0 : Frame) (hfr : s.frames[e]? = some fr0)
+    (hb : C01.PlainBinding s (p, a)) :
+    ∃ fr1, run (createOrSet e p a true) s = (.ok a, { s with frames := s.frames.setIfInBounds e fr1 })
+      ∧ fr1.store = setStore fr0.store p a ∧ fr1.outer = fr0.outer ∧ fr1.function = fr0.function
+      ∧ fr1.depth = fr0.depth := by
+  obtain ⟨hc, hx, hpl, hne⟩ := hb
+  simp only at hc hx hpl hne
+  unfold createOrSet setNoChecks envCreate rootBindsFunc
+  simp only [run_bind, hc, Bool.false_eq_true, if_false, run_get, hx]
+  rw [if_pos trivial]
+  simp only [run_bind, C01.run_valueOf_plain a hpl, run_get, run_pure, run_modifyFrame, hfr]
+  exact ⟨_, rfl, rfl, rfl, rfl, rfl⟩
+
+theorem C01.bindParams_run (e : Nat) (pas : List (String × Obj)) (s : St) (fr0 : Frame)
+    (hfr : s.frames[e]? = some fr0) (hp : ∀ pa, pa ∈ pas → C01.PlainBinding s pa) :
+    ∃ s', run (bindParams e pas) s = (.ok none, s') ∧ C01.Bound s s' e fr0 pas := by
+  induction pas generalizing s fr0 with
+  | nil =>
+    refine ⟨s, ?_, rfl, rfl, rfl, rfl, rfl, fun _ _ => rfl, fr0, hfr, rfl, rfl, rfl, rfl⟩
+    rw [bindParams]; rfl
+  | cons pa rest ih =>
+    obtain ⟨p, a⟩ := pa
+    have hpa := hp (p, a) (List.mem_cons_self ..)
+    obtain ⟨fr1, hone, h1s, h1o, h1f, h1d⟩ := C01.bind_one e p a s fr0 hfr hpa
+    obtain ⟨hc, hx, hpl, hne⟩ := hpa
+    simp only at hc hx hpl hne
+    have hlt : e < s.frames.size := by
+      rcases Nat.lt_or_ge e s.frames.size with h | h
+      · exact h
+      · rw [Array.getElem?_eq_none h] at hfr; cases hfr
+    rw [bindParams]
+    simp only [run_bind, C01.run_valueOf_plain a hpl, hc, Bool.false_eq_true, if_false, hone, hne]
+    have hget : ({ s with frames := s.frames.setIfInBounds e fr1 } : St).frames[e]? = some fr1 := by
+      simp [hlt]
+    obtain ⟨s', hrun, hb⟩ := ih { s with frames := s.frames.setIfInBounds e fr1 } fr1 hget
+      (fun pa hpa => hp pa (List.mem_cons_of_mem _ hpa))
+    refine ⟨s', hrun, ?_⟩
+    obtain ⟨b1, b2, b3, b4, b5, b6, fr', b7, b8, b9, b10, b11⟩ := hb
+    refine ⟨?_, b2, b3, b4, b5, ?_, fr', b7, ?_, b9.trans h1o, b10.trans h1f, b11.trans h1d⟩
+    · rw [b1]; simp
+    · intro i hi
+      rw [b6 i hi]
+      simp [Ne.symm hi]
+    · rw [b8, h1s]; rfl
+
+/-- what `extendFunctionEnv` builds for a plain call (not variadic, not a recursive call of the function the
+caller's frame is running, as many arguments as parameters, ordinary parameter names, plain argument values):
+a NEW frame at the end of the heap, parented to the closure's DEFINING environment `f.env` (lexical scoping),
+one level deeper than it, running `f`, whose store binds the parameters to the arguments in order; the caller's
+current environment, the writers and every existing frame are untouched -/
+theorem C01.extend_plain (f : FuncVal) (args : List Obj) (st : St) (cf pf : Frame)
+    (hcf : st.frames[st.cur]? = some cf) (hpf : st.frames[f.env]? = some pf)
+    (hnv : f.variadic = false) (hns : sameFunction cf f = false) (hlen : args.length = f.params.length)
+    (hp : ∀ pa, pa ∈ f.params.zip args → C01.PlainBinding st pa) :
+    ∃ s1 fr, run (extendFunctionEnv f args) st = (.ok (.ok st.frames.size), s1)
+      ∧ s1.cur = st.cur ∧ s1.cfg = st.cfg ∧ s1.outs = st.outs ∧ s1.frames.size = st.frames.size + 1
+      ∧ (∀ i, i < st.frames.size → s1.frames[i]? = st.frames[i]?)
+      ∧ s1.frames[st.frames.size]? = some fr ∧ fr.outer = some f.env ∧ fr.function = some f
+      ∧ fr.depth = pf.depth + 1 ∧ fr.store = C01.bindStore [] (f.params.zip args) := by
+  have hne : (args.length != f.params.length) = false := by simp [hlen]
+  unfold extendFunctionEnv newFrame splitArgs
+  simp only [run_bind, C01.run_curEnv, run_getFrame, hcf, hns, Bool.false_eq_true, if_false, hpf, run_get, run_set,
+    run_pure, hnv, hne, Bool.false_and]
+  have hget : ∀ F0 : Frame, ({ st with frames := st.frames.push F0 } : St).frames[st.frames.size]? = some F0 := by
+    intro F0; simp
+  obtain ⟨s', hrun, b1, b2, b3, b4, b5, b6, fr', b7, b8, b9, b10, b11⟩ :=
+    C01.bindParams_run st.frames.size (f.params.zip args) _ _ (hget _) hp
+  rw [hrun]
+  refine ⟨s', fr', rfl, b2, b3, b4, ?_, ?_, b7, b9, b10, b11, b8⟩
+  · rw [b1]; simp
+  · intro i hi
+    rw [b6 i (Nat.ne_of_lt hi)]
+    simp [Array.getElem?_push, Nat.ne_of_lt hi]
+
+/-- APPLICATION of a plain function, cache off, all in one: there is a state `s1` = the caller's state plus ONE
+new frame `fr` (parent = the closure's defining environment, parameters bound to the arguments in order, nothing
+else changed) such that the value of the call is the value of the body evaluated with `fr` as the current
+environment and a fresh output buffer -/
+theorem C01.apply_plain (fuel : Nat) (f : FuncVal) (args : List Obj) (st : St) (cf pf : Frame)
+    (hoff : st.cfg.cacheOn = false)
+    (hcf : st.frames[st.cur]? = some cf) (hpf : st.frames[f.env]? = some pf)
+    (hnv : f.variadic = false) (hns : sameFunction cf f = false) (hlen : args.length = f.params.length)
+    (hp : ∀ pa, pa ∈ f.params.zip args → C01.PlainBinding st pa) :
+    ∃ (s1 : St) (fr : Frame), s1.frames.size = st.frames.size + 1
+      ∧ (∀ i, i < st.frames.size → s1.frames[i]? = st.frames[i]?)
+      ∧ s1.frames[st.frames.size]? = some fr ∧ fr.outer = some f.env ∧ fr.function = some f
+      ∧ fr.store = C01.bindStore [] (f.params.zip args)
+      ∧ s1.cur = st.cur ∧ s1.outs = st.outs ∧ s1.cfg = st.cfg
+      ∧ ∀ res, outcome (eval fuel f.body) { s1 with cur := st.frames.size, outs := [] :: s1.outs } = .ok res →
+          outcome (applyFunction (fuel + 1) (.func f) args) st = .ok res := by
+  obtain ⟨s1, fr, hrun, c1, c2, c3, c4, c5, c6, c7, c8, _, c10⟩ :=
+    C01.extend_plain f args st cf pf hcf hpf hnv hns hlen hp
+  refine ⟨s1, fr, c4, c5, c6, c7, c8, c10, c1, c3, c2, fun res hres => ?_⟩
+  have hlt := C01.cur_lt st cf hcf
+  exact C01.apply_is_body fuel f args st s1 cf st.frames.size res hoff hcf hrun (by omega) (by omega) hres
+
+/-! non-vacuity of the hypotheses: a closure of the top level frame called from the top level -/
+example : C01.PlainBinding {} ("a", .int 41) :=
+  ⟨by decide, rfl, fun _ _ h => (by cases h), rfl⟩
+example : sameFunction ({} : Frame) { name := none, params := ["a"], variadic := false, lambda := true, key := "k", body := .ident "a", env := 0 } = false := by
+  decide
+
 end Grol.E
